@@ -273,7 +273,13 @@ func randTree(rng *rand.Rand, depth int, tag int) *nbtNode {
 	}
 	switch {
 	case tag <= 6:
-		return &nbtNode{T: tag, Pat: randPat(rng, nbtWidth[tag])}
+		pat := randPat(rng, nbtWidth[tag])
+		if tag == 5 && pat[0]&0x7f == 0x7f && pat[1]&0x80 != 0 && pat[1]&0x40 == 0 {
+			// a signalling float32 NaN: Go's float32 <-> float64 conversions (reflect's SetFloat/Float, which both the
+			// library and this harness go through for typed destinations) set the quiet bit - not generated
+			pat[1] |= 0x40
+		}
+		return &nbtNode{T: tag, Pat: pat}
 	case tag == 7 || tag == 8:
 		n := []int{0, 1, 3, 40, 300}[rng.Intn(5)]
 		b := make([]byte, n)
